@@ -111,6 +111,8 @@ def run(tier, seed, replay=None):
     if out is None:
         return res.finish()
     n, hit, classes = 0, 0, {}
+    known = [k for k in C.load_known() if k["property"] == PID and k["status"] == "known" and k["id"] == "K3"]
+    k3_hits = []
     for bid, o in out.items():
         for prof in ("debug", "release"):
             if "check true" not in o["cases"][0][prof]["lines"]:
@@ -133,11 +135,18 @@ def run(tier, seed, replay=None):
                 continue
             hit += 1
             for prof in ("debug", "release"):
+                if "check true" in c[prof]["lines"] and known and opk == "xor" and c["op"].endswith(D.KERNEL):
+                    k3_hits.append("%s:%s:%s (%s)" % (bid, c["file"], c["op"].split(":")[1], ",".join(sorted(cls))))
+                    break
                 if "check true" in c[prof]["lines"]:
                     res.violation("C04: bytes covered by a pack checksum were altered (%s on %s of base %s, %s) and the container check still answers true (%s build)" % (
                         c["op"], c["file"], bid, sorted(cls), prof),
                         "case %s damage base=%s main=c.jbk file=%s op=%s\nend\n# base container: %s\n" % (c["id"], o["dir"], c["file"], c["op"], o["base"]))
                     break
+    if k3_hits:
+        res.known("K3", "a CRC-valid alteration (kernel pattern 01 1E DC 6F 41) of a check block's kind byte or of a pack's uuid makes check() answer true on altered covered bytes "
+                        "(%d positions hit on this run, e.g. %s)" % (len(k3_hits), k3_hits[0]))
+    res.cov["known_finding_K3_positions"] = len(k3_hits)
     res.cov.update({
         "evaluations": n + n_ok, "distinct_nontrivial": hit + n_packs,
         "created_containers_verified": n_ok, "created_packs_digest_tied_to_model_range": n_packs, "created_distribution": dist,
